@@ -63,7 +63,7 @@ try:
     res["first_reports"] = outputs
     res["caught_by_own_property_check"] = prop in fired
     # without the change
-    sh("git checkout -- .")
+    sh("git checkout -- . && git clean -fdq")  # (a combined patch may add files: they must go too)
     shutil.copy(demo, target)
     rc, out = sh(f"go test -vet=off -count=1 -run '{runpat}' ./{pkgdir} 2>&1 | tail -8")
     res["demo_passes_without_change"] = rc == 0 and "ok" in out and "no tests to run" not in out
